@@ -25,6 +25,10 @@
 //	        decoy entry for another package name and/or another ecosystem that would match
 //	        everything (both orders; decoy alone); C2 two entries for the queried package
 //	        (affected iff any; first <= 2 / <= 3 events, second <= 2 events or a versions list)
+//	phase E one range (ECOSYSTEM, SEMVER for npm) whose events on 1.0.0 / 2.0.0 are written in
+//	        alternative spellings of the same version, chosen independently per event (npm
+//	        v1.0.0, 1.0.0+build; Maven/PyPI 1.0, 1; likewise for 2.0.0), every list of phase A,
+//	        every spelling assignment, every permutation
 //	phase D explicit `versions` lists (every subset of size <= 2 of the probe set) alone or
 //	        next to a range (<= 2 / <= 3 events, permuted) of type ECOSYSTEM / GIT
 //
@@ -308,7 +312,11 @@ func declAffected(events []oEvent, v string) bool {
 // variantListedTieOrder is the specification scan WITHOUT the tie rule of specSorted: events on
 // the same version stay in the order in which the record lists them. Used only to attribute a
 // mismatch to one root cause (cause key), never to accept one.
-func variantListedTieOrder(c *rCase) bool {
+//
+// identicalFirst = true gives the second attribution variant: events on the same version spelled
+// with the SAME string are ordered introduced-first (as the specification wants), only ties
+// between different spellings of one version ("1.0" / "1.0.0") keep their listed order.
+func variantListedTieOrder(c *rCase, identicalFirst bool) bool {
 	for _, a := range c.Affected {
 		if a.Ecosystem != c.Ecosystem || a.Name != c.Name {
 			continue
@@ -330,6 +338,9 @@ func variantListedTieOrder(c *rCase) bool {
 				}
 				if y == "0" {
 					return false
+				}
+				if identicalFirst && x == y {
+					return out[i].Introduced != "" && out[j].Introduced == ""
 				}
 				return refCmp(x, y) < 0
 			})
@@ -375,6 +386,11 @@ type ecoT struct {
 	name    string
 	other   string // another package name in the same ecosystem
 	preZero string // a valid version of the ecosystem that sorts below 0 / 0.0.0 (only introduced "0" precedes it)
+	// spell[pos] lists the spellings of ladder[pos-1] usable in events; index 0 is the ladder string.
+	// Every spelling is the same version under the ecosystem's rules (and under deps.dev semver,
+	// which IsAffected uses): npm ignores a leading "v" and build metadata, Maven and PEP 440
+	// ignore trailing zero components.
+	spell   map[int][]string
 	types   []string
 	probes  []string
 	pkgs    []*extractor.Package
@@ -382,9 +398,9 @@ type ecoT struct {
 }
 
 var ecos = []*ecoT{
-	{osv: "npm", sys: resolve.NPM, name: "left-pad", other: "right-pad", preZero: "0.0.0-alpha", types: []string{"ECOSYSTEM", "SEMVER", "GIT"}},
-	{osv: "Maven", sys: resolve.Maven, name: "com.example:alpha", other: "com.example:beta", preZero: "0-alpha", types: []string{"ECOSYSTEM", "GIT"}},
-	{osv: "PyPI", sys: resolve.PyPI, name: "alpha-lib", other: "beta-lib", preZero: "0.dev0", types: []string{"ECOSYSTEM", "GIT"}},
+	{osv: "npm", sys: resolve.NPM, name: "left-pad", other: "right-pad", preZero: "0.0.0-alpha", spell: map[int][]string{1: {"1.0.0", "v1.0.0", "1.0.0+build"}, 5: {"2.0.0", "v2.0.0", "2.0.0+build"}}, types: []string{"ECOSYSTEM", "SEMVER", "GIT"}},
+	{osv: "Maven", sys: resolve.Maven, name: "com.example:alpha", other: "com.example:beta", preZero: "0-alpha", spell: map[int][]string{1: {"1.0.0", "1.0", "1"}, 5: {"2.0.0", "2.0", "2"}}, types: []string{"ECOSYSTEM", "GIT"}},
+	{osv: "PyPI", sys: resolve.PyPI, name: "alpha-lib", other: "beta-lib", preZero: "0.dev0", spell: map[int][]string{1: {"1.0.0", "1.0", "1"}, 5: {"2.0.0", "2.0", "2"}}, types: []string{"ECOSYSTEM", "GIT"}},
 }
 
 func initSpace() {
@@ -410,6 +426,16 @@ func initSpace() {
 		// represents it as (-1,0,0); it is never used as an event version.
 		e.probes = append(e.probes, e.preZero)
 		verCache[e.preZero] = ver{-1, 0, 0}
+		// alternative spellings are, by definition here, the ladder version they spell
+		for pos, sp := range e.spell {
+			if sp[0] != ladder[pos-1] {
+				fmt.Fprintln(os.Stderr, "C18 harness error: spelling table does not start with the ladder string")
+				os.Exit(3)
+			}
+			for _, alt := range sp[1:] {
+				verCache[alt] = verCache[ladder[pos-1]]
+			}
+		}
 		if e.osv != "npm" {
 			e.probes = append(e.probes, aliasProbes...)
 		}
@@ -543,6 +569,27 @@ func initPerms() {
 	}
 }
 
+// listedSpelled is listed with the version of event k written as spelling sp[k] of its ladder
+// position (0 = the ladder string itself).
+func (c *canon) listedSpelled(e *ecoT, perm []int, sp []int) []rEvent {
+	out := c.listed(perm)
+	for i, k := range perm {
+		if sp[k] == 0 {
+			continue
+		}
+		s := e.spell[c.evs[k].pos][sp[k]]
+		switch c.evs[k].kind {
+		case 'i':
+			out[i].Introduced = s
+		case 'f':
+			out[i].Fixed = s
+		default:
+			out[i].LastAffected = s
+		}
+	}
+	return out
+}
+
 func (c *canon) listed(perm []int) []rEvent {
 	out := make([]rEvent, len(perm))
 	for i, k := range perm {
@@ -582,10 +629,11 @@ func (st *stats) addViol(key, what string, c *rCase) {
 var (
 	gAffected, gNotAffected, gSkipped atomic.Int64
 	gPermLists                        atomic.Int64
-	gPhaseEvals                       [6]atomic.Int64 // A, B, C1, C2, D, D0
+	gSpelledLists                     atomic.Int64
+	gPhaseEvals                       [7]atomic.Int64 // A, B, C1, C2, D, D0, E
 )
 
-var phaseNames = []string{"A", "B", "C1", "C2", "D", "D0"}
+var phaseNames = []string{"A", "B", "C1", "C2", "D", "D0", "E"}
 
 func safeCall(v *osvschema.Vulnerability, pkg *extractor.Package) (got bool, panicked any, stack string) {
 	defer func() {
@@ -715,7 +763,10 @@ func causeKey(c *rCase, eco *ecoT, got, want bool) string {
 			if !typeMatches(a.Ecosystem, rg.Type) {
 				return "range-of-non-matching-type-evaluated:" + rg.Type
 			}
-			if g1 == variantListedTieOrder(&c1) {
+			if g1 == variantListedTieOrder(&c1, true) {
+				return "tie-equal-versions-different-spelling:listed-order-decides:" + d1
+			}
+			if g1 == variantListedTieOrder(&c1, false) {
 				return "tie-introduced-eq-last_affected:listed-order-decides:" + d1
 			}
 			return "range:" + rangeClass(rg.Events, c.Version) + ":" + d1
@@ -863,7 +914,7 @@ func main() {
 	for _, ph := range []struct {
 		name string
 		l    int
-	}{{"A", maxLen}, {"D", lenD}, {"C1", lenC1}, {"C2", lenC2}, {"B", lenB1}} {
+	}{{"A", maxLen}, {"E", maxLen}, {"D", lenD}, {"C1", lenC1}, {"C2", lenC2}, {"B", lenB1}} {
 		for _, c := range upTo(ph.l) {
 			for _, e := range ecos {
 				items = append(items, workItem{ph.name, e, c})
@@ -1084,6 +1135,55 @@ func main() {
 					}
 				}
 			}
+		case "E":
+			// alternative spellings of the event versions, chosen independently per event
+			var at []int // indices of the events that sit on a ladder position with spellings
+			for k, pv := range it.c.evs {
+				if len(e.spell[pv.pos]) > 1 {
+					at = append(at, k)
+				}
+			}
+			if len(at) == 0 {
+				break
+			}
+			matchTypes := []string{"ECOSYSTEM"}
+			if e.osv == "npm" {
+				matchTypes = append(matchTypes, "SEMVER")
+			}
+			sp := make([]int, len(it.c.evs))
+			for {
+				// next assignment (odometer over the spelling indices); all-zero is phase A
+				i := 0
+				for ; i < len(at); i++ {
+					k := at[i]
+					sp[k]++
+					if sp[k] < len(e.spell[it.c.evs[k].pos]) {
+						break
+					}
+					sp[k] = 0
+				}
+				if i == len(at) {
+					break
+				}
+				if e == ecos[0] {
+					gSpelledLists.Add(1)
+				}
+				for pn, pm := range perms(len(it.c.evs)) {
+					l1 := it.c.listedSpelled(e, pm, sp)
+					for _, typ := range matchTypes {
+						for pi := range e.probes {
+							c := mk("E", pi, own(nil, rg(typ, l1)))
+							w := x.check(c, e, pi, &st)
+							if pn == 0 {
+								distinct++
+							}
+							if pn == 1 && pi == 8 && typ == "ECOSYSTEM" && len(it.c.evs) == 2 && it.c.evs[0].pos == 1 && it.c.evs[1].pos == 1 {
+								sample(c.toRCase(e, pi), w)
+							}
+						}
+					}
+				}
+			}
 		case "D0":
 			// no ranges at all: versions list alone; also an entry with neither; also decoy-only records
 			subs := subsets(len(e.probes))
@@ -1154,6 +1254,8 @@ func main() {
 	r.Set("distinct_event_lists", distinctLists.Load())
 	r.Set("permuted_event_lists", gPermLists.Load()/3)
 	r.Set("distinct_single_range_cells", distinctA.Load())
+	r.Set("respelled_event_lists", gSpelledLists.Load())
+	r.Set("event_spellings", map[string]map[int][]string{"npm": ecos[0].spell, "Maven": ecos[1].spell, "PyPI": ecos[2].spell})
 	byPhase := map[string]int64{}
 	for i, n := range phaseNames {
 		byPhase[n] = gPhaseEvals[i].Load()
@@ -1205,7 +1307,7 @@ func replay(file string) int {
 		for _, rg := range a.Ranges {
 			for _, e := range rg.Events {
 				if v := evVersion(e); v != "0" {
-					if _, ok := refParse(v); !ok {
+					if _, ok := verCache[v]; !ok && !parses(v) {
 						fmt.Fprintf(os.Stderr, "replay: event version %q outside the reference comparison's domain\n", v)
 						return 3
 					}
